@@ -1450,7 +1450,9 @@ impl Exec {
                         // a name whose node a collection has freed: the request is meaningless (a generator
                         // defect, reported in the statistics so that it cannot go unnoticed)
                         if !self.live.get(i).copied().unwrap_or(true) && self.env[i].index() != 0 {
+                            // refused, as the model refuses it (it retires the names of collected nodes)
                             self.bump("stale-handle-use");
+                            return "bad-op".into();
                         }
                         i
                     }
